@@ -209,6 +209,16 @@ def v2(F, res):
                     % ['%s%s' % ('!' if n else '', c[:60]) for c, n in conds])
         else:
             res.ok('function-body/reads-whole-body', {'loop_condition': '!body.eof()'}, nontrivial=False)
+        # operators that follow the `end` which closed the function body: the validator accepts them one by one (it reports
+        # them from finish()), so the decoder itself must refuse to append once no control frame is left
+        guard = any((re.search(r'is_empty\(.*controls', k) and v is False) or (re.search(r'len\(.*controls\) Eq 0', k) and v is False)
+                    or (re.search(r'len\(.*controls\) (Gt|Ne) 0', k) and v is True) for k, v in asm.items())
+        if guard:
+            res.ok('function-body/frame-left-before-append', {'guard': 'control stack non-empty before append_instruction'}, nontrivial=False)
+        else:
+            res.bad('function-body/frame-left-before-append', 'LocalFunction::parse hands an operator to append_instruction without checking '
+                    'that a control frame is left: `end` followed by e.g. `i32.const 0` passes validator.op() and then panics on the '
+                    'empty control stack instead of being rejected')
         if good:
             okk += 1
         else:
